@@ -29,10 +29,10 @@ ASSUMPTIONS = [
     "clip-bound hits are counted as samples equal to 0 and to 2^depth-1 per component; nothing is claimed about *which* samples "
     "must clip (that would need an independent inverse transform, which is C11/C05's subject)",
 ]
-CASE_TIMEOUT_S = 120
+CASE_TIMEOUT_S = 180
 STEP_BUDGET = 2000000000
 
-N_QUICK = 4000
+N_QUICK = 2400
 N_THOROUGH = 96000
 
 
@@ -203,6 +203,21 @@ def check_picture(pic, coded_number, dd, strat, ctx):
     return True
 
 
+def evidence_extra(agg, tier):
+    c = agg["counters"]
+    out = {"clip_bound_hits": {}, "callback_accounting": {
+        "callbacks": c.get("callbacks", 0), "picture_units": c.get("picture_units", 0),
+        "completed_fragmented_pictures": c.get("fragmented_pictures", 0)}}
+    for comp in ("Y", "C1", "C2"):
+        out["clip_bound_hits"][comp] = {
+            "samples": c.get("samples:" + comp, 0),
+            "at_0": c.get("clip_low_hits:" + comp, 0), "at_max": c.get("clip_high_hits:" + comp, 0),
+            "at_0_depth>1": c.get("clip_low_hits_depth>1:" + comp, 0), "at_max_depth>1": c.get("clip_high_hits_depth>1:" + comp, 0),
+            "components_with_both": c.get("components_hitting_both_bounds:" + comp, 0)}
+    out["magnitude_classes"] = {k.split(":", 1)[1]: v for k, v in c.items() if k.startswith("variation:repack:")}
+    return out
+
+
 def _explain(e):
     try:
         return e.explain()
@@ -213,10 +228,10 @@ def _explain(e):
 def floor(agg, tier):
     c = agg["counters"]
     miss = []
-    scale = 1 if tier == "quick" else 12
-    if c.get("checked_cases", 0) < 2000 * scale:
-        miss.append("fewer than %d cases checked (%d)" % (2000 * scale, c.get("checked_cases", 0)))
-    if c.get("callbacks", 0) < 3000 * scale or c.get("callbacks", 0) != c.get("pictures_checked", 0):
+    scale = 1 if tier == "quick" else 20
+    if c.get("checked_cases", 0) < 1200 * scale:
+        miss.append("fewer than %d cases checked (%d)" % (1200 * scale, c.get("checked_cases", 0)))
+    if c.get("callbacks", 0) < 2000 * scale or c.get("pictures_checked", 0) < 0.98 * c.get("callbacks", 0):
         miss.append("callbacks observed (%d) too few or not all checked (%d)" % (c.get("callbacks", 0), c.get("pictures_checked", 0)))
     for k in ("pictures:fragmented", "pictures:unfragmented", "pictures:LD", "pictures:HQ", "pictures:fields", "pictures:frames"):
         if c.get(k, 0) < 500 * scale:
